@@ -108,9 +108,8 @@ theorem eff_inv (s : St) (e : Ev) (h : InvErr s) : InvErr (eff s e) := by
   case sleep t q dl =>
     have h1 : InvErr (setTh s t { s.th t with st := .sleep, q := q, dl := dl, err := 0, intrSince := [] }) :=
       inv_setTh _ _ _ h (fun hx => absurd rfl hx)
-    unfold effSleep
     apply inv_of_th _ _ h1
-    cases q <;> (simp only []; split <;> rfl)
+    cases q <;> rfl
   case wakeTimeout t =>
     have h1 : InvErr (setTh s t { s.th t with st := .run, q := none }) := inv_setTh s t _ h (fun hx => h t hx)
     exact inv_of_th _ _ h1 (by simp only [effWakeTimeout, dequeue_th])
@@ -140,6 +139,13 @@ theorem eff_inv (s : St) (e : Ev) (h : InvErr s) : InvErr (eff s e) := by
   case callUnlock t m => exact h
   case semInit sm c io => exact h
   case mutexInit m => exact h
+  case rwInit rw cv => exact h
+  case retRwLock t rw w r =>
+    have h1 : InvErr (setTh s t { s.th t with op := .none }) := inv_setTh s t _ h (fun hx => h t hx)
+    simp only [effRetRwLock]; split
+    · exact h1
+    · split <;> exact inv_of_th _ _ h1 rfl
+  case callRwUnlock t rw => simp only [effCallRwUnlock]; split <;> exact inv_of_th _ _ h rfl
   case semAdd sm n c => exact h
   case semSub sm n ok by_ =>
     have h1 : InvErr (setTh s by_ { s.th by_ with subOk := ok }) := inv_setTh s by_ _ h (fun hx => h by_ hx)
@@ -213,8 +219,8 @@ theorem C04_window_reset (s : St) (t : Nat) (q dl : Option Nat) :
     ((eff s (.sleep t q dl)).th t).intrSince = [] ∧ ((eff s (.sleep t q dl)).th t).err = 0 ∧
     ((eff s (.yield t)).th t).intrSince = [] ∧ ((eff s (.yield t)).th t).err = 0 := by
   refine ⟨?_, ?_, by simp [eff, effYield, setTh, upd], by simp [eff, effYield, setTh, upd]⟩
-  · simp only [eff, effSleep]; cases q <;> (simp only []; split <;> simp [setTh, upd])
-  · simp only [eff, effSleep]; cases q <;> (simp only []; split <;> simp [setTh, upd])
+  · cases q <;> simp [eff, effSleep, enqueue, setTh, upd]
+  · cases q <;> simp [eff, effSleep, enqueue, setTh, upd]
 
 /-- **C04, one interrupt ends at most one sleep.** Reporting a reason consumes it: after the
     return the pending reason is 0, and only an interrupt event can make it non-zero again. -/
@@ -257,13 +263,17 @@ theorem C04_reason_only_from_interrupt (s s' : St) (ev : Ev) (t : Nat) (h : step
     · rfl
     · exact h0
   case sleep t' q dl =>
-    simp only [effSleep]
-    cases q <;> (simp only []; split <;> (simp only [setTh, upd]; split <;> first | rfl | exact h0))
+    cases q <;> (simp only [effSleep, enqueue, setTh, upd]; split <;> first | rfl | exact h0)
   case wakeTimeout t' =>
     simp only [effWakeTimeout, dequeue_th, setTh, upd]; split
     · next hh => subst hh; exact h0
     · exact h0
   case mutexTry m ok t' => simp only [effMutexTry]; split <;> exact h0
+  case retRwLock t' rw w r =>
+    simp only [effRetRwLock]; split
+    · simp only [setTh, upd]; split <;> first | exact h0 | (next hh => subst hh; exact h0)
+    · split <;> (simp only [setTh, upd]; split <;> first | exact h0 | (next hh => subst hh; exact h0))
+  case callRwUnlock t' rw => simp only [effCallRwUnlock]; split <;> exact h0
   case semSub sm n ok b =>
     simp only [effSemSub]; split <;> (simp only [setTh, upd]; split <;> first | exact h0 | (next hh => subst hh; exact h0))
   all_goals first
